@@ -607,6 +607,7 @@ NV_ITEM = z3.Function("np_item_of_0d_array", NV, NV)  # arr[()] of a 0-dim array
 NV_IS_VOID = z3.Function("np_is_void_scalar", NV, B)  # isinstance(v, np.void)
 NV_BYTES = z3.Function("np_tobytes", NV, S)
 NV_SCALAR_SHAPE = z3.Function("np_shape_is_scalar", NV, B)
+NV_DTYPE_IS_VOID = z3.Function("np_dtype_kind_is_void", NV, B)
 NV_ITEMSIZE = z3.Function("np_itemsize", NV, I_)
 DS_VALUE = z3.Function("h5_dataset_value", NV, NV)  # node[()] of an h5py dataset (keyed by an id of the dataset)
 DEL_BYTES = z3.StringVal("\x7f")
@@ -665,6 +666,11 @@ class DTypeVal(SVal):
     def __init__(self, t):
         self.t = t
 
+    def py_eq(self, cx, o):
+        if isinstance(o, MarkerDType):
+            return z3.And(NV_DTYPE_IS_VOID(self.t), NV_ITEMSIZE(self.t) == 1)  # dtype('V1')
+        raise Unsupported("dtype comparison")
+
     def py_getattr(self, cx, name):
         if name == "itemsize":
             return SInt(NV_ITEMSIZE(self.t))
@@ -699,9 +705,18 @@ class NpClasses(SVal):
         raise Unsupported(f"np.{name}")
 
 
+class MarkerDType(SVal):
+    """DEL_VALUE.dtype = dtype('V1')"""
+
+
 class DelValueConst(SVal):
     def meth_tobytes(self, cx):
         return SStr(DEL_BYTES)
+
+    def py_getattr(self, cx, name):
+        if name == "dtype":
+            return MarkerDType()
+        raise Unsupported("DEL_VALUE." + name)
 
 
 def _axioms(cx):
